@@ -89,10 +89,10 @@ func ArmOffsets(ms []ArmMember) (offs []int, total int) {
 // ArmExpect is what a reader must report for a well-formed member (C13's reference): name with the padding and
 // one trailing '/' removed, numeric columns as decimal (blank = 0), mode text without padding.
 type ArmExpect struct {
-	Name                string
-	TS, UID, GID, Size  int64
-	Mode                string
-	Data                []byte
+	Name               string
+	TS, UID, GID, Size int64
+	Mode               string
+	Data               []byte
 }
 
 func armNum(s string) int64 {
